@@ -316,7 +316,7 @@ SimplifyC(e, pre, post) ==
   \o IF ~HasResult(e) THEN None ELSE
      LET w == ResultOf(e, post)
          claim == ValReadable(v) /\ NoEsc(v.t)
-     IN Cl("C03.simplify_text", TRUE, NoEsc(v.t) => w.t = v.t)
+     IN Cl("C03.simplify_text", TRUE, w.t = v.t)          \* whatever the text contains: it is text
      \o Cl("C03.simplify_display", claim /\ HasStyle(v), claim => (ValReadable(w) /\ SameDisplay(v, w)))
      \o Cl("C03.simplify_parsable", HasStyle(v), NoEsc(v.t) => (e.o.parsable = 1 /\ ValAllSingle(w)))
      \o Cl("C03.simplify_idempotent", HasStyle(v), NoEsc(v.t) => e.o.q2 = w.q)
